@@ -711,3 +711,12 @@ def run(rep, repo, tier):
   rep.require_instances("R2", 2)
   rep.require_instances("R3", 5)
   rep.require_instances("R4", 100)
+
+  # R20: construction history (shared with C09 R10): every option
+  # alternative of these classes is built and used first in ONE interpreter;
+  # each configuration then computes / prints / rebuilds what it does alone
+  from . import c09 as _c09
+  from .. import qref as _qref
+  if _c09.rule_construction_history(
+      rep, repo, repo.module(quant.QMOD), _qref.ALL_QUANTIZERS, "R20") < 5:
+    raise AnalysisError("instance-count construction histories")
